@@ -65,11 +65,19 @@ RepairO(orig, q, used, n, i) ==
        THEN LET cnd == Candidate(q[i], used, n, 1)
             IN RepairO(orig, [q EXCEPT ![i] = cnd], used \cup (IF cnd = q[i] THEN {} ELSE {cnd}), n, i + 1)
        ELSE RepairO(orig, q, used, n, i + 1)
-WeightedKeypoints(in) ==
-  LET sv == Sorted(in)  n == Len(sv)
-      raw == RawIdx(in, sv)
+WeightedFrom(in, sv, raw) ==
+  LET n == Len(sv)
       rep == RepairO(raw, raw, SeqSet(raw), n, 1)
   IN [j \in 1..in.k |-> R(sv[SortSet(SeqSet(rep))[j] + 1])]
+WeightedKeypoints(in) == LET sv == Sorted(in) IN WeightedFrom(in, sv, RawIdx(in, sv))
+\* np.rint acts on a float: where the exact interpolated index is a half-integer, the float may fall on either side
+\* (e.g. values 0..3, weights 2,1,1,2, quantile 1/2: exactly 1.5, computed as 1.4999999999999998). Both roundings are
+\* behaviours of the model; everywhere else the rounding is determined.
+RoundSet(q) == LET fl == RFloor(q) IN IF RSub(q, R(fl)) = <<1, 2>> THEN {fl, fl + 1} ELSE {RoundHE(q)}
+WeightedResults(in) ==
+  LET sv == Sorted(in)
+      ch == [j \in 1..in.k |-> RoundSet(Interp(in, sv, Quantile(in, j)))]
+  IN {WeightedFrom(in, sv, raw) : raw \in {r \in [1..in.k -> 0..(Len(sv) - 1)] : \A j \in 1..in.k : r[j] \in ch[j]}}
 \* ---- the possible results (a set, because of the open tie rule of the unweighted quantile) ------------
 Uniform(in) == LET sv == Sorted(in) IN
                [j \in 1..in.k |-> RAdd(R(sv[1]), RMul(Norm(j - 1, in.k - 1), R(sv[Len(sv)] - sv[1])))]
@@ -77,7 +85,7 @@ Results(in) ==
   LET sv == Sorted(in)  n == Len(sv) IN
   IF in.mode = "uniform" THEN {Uniform(in)}
   ELSE IF n < in.k THEN {[j \in 1..n |-> R(sv[j])]}
-  ELSE IF in.hasW THEN (IF CumW(in, sv, n) = Zero THEN {} ELSE {WeightedKeypoints(in)})
+  ELSE IF in.hasW THEN (IF CumW(in, sv, n) = Zero THEN {} ELSE WeightedResults(in))
   ELSE {[j \in 1..in.k |-> R(sv[c[j] + 1])] : c \in {c \in [1..in.k -> 0..(n - 1)] : \A j \in 1..in.k : c[j] \in NearestIdx(n, Quantile(in, j))}}
 \* ---- contract of C18 on a result kp (sequence of rationals) -------------------------------------------
 NumDistinct(in) == Cardinality(Distinct(in))
